@@ -416,6 +416,14 @@ def eval_recipe(rc: dict, workdir: str, rng: random.Random, routes: dict | None 
                 loaded = MazeDataset.load(data)
                 ob["load"] = {"ok": _obs_ds(loaded, snap)}
                 bad = oracle(snap, loaded, collected_now, ds)
+                if not bad and len(loaded.mazes) > 0:
+                    # the caller edits what it loaded (in place), then loads the SAME serialized data again: the second result must be the
+                    # dataset again, not the edited one
+                    # (list-level edits only: the arrays of a dataset loaded in memory may be the very arrays of `data` — nothing in the
+                    # property says a load must copy them — so overwriting array contents would edit the serialized form itself)
+                    loaded.mazes.reverse(); loaded.mazes.pop()
+                    loaded.cfg.applied_filters.append(dict(name="verif_probe", args=(), kwargs={}))
+                    bad = [f"second load of the same serialized data after the first result was edited in place: {b}" for b in oracle(snap, MazeDataset.load(data), collected_now, ds)]
             except Exception as e:
                 ob["load"] = {"err": _errkind(e)}
                 bad = [f"MazeDataset.load({ser}()) raised {type(e).__name__}: {str(e)[:200]}"]
